@@ -152,6 +152,10 @@ func (w *c11world) rtspPublish(user, pass, path string) string {
 	}
 	defer cl.Close()
 	cl.User, cl.Pass = user, pass
+	// an earlier probe may have published this path a moment ago: wait until its session has gone
+	if !waitUntil(func() bool { return media.Get(path) == nil }, 5*time.Second) {
+		return "error:path-still-registered-by-an-earlier-probe"
+	}
 	code, err := cl.Publish(w.srv.URL(path), kit.SDPH264AAC)
 	out := classifyRTSP(code, err)
 	reg := media.Get(path) != nil
@@ -188,6 +192,9 @@ func (w *c11world) wsRtspPublish(token, connPath, pubPath string) string {
 		return out
 	}
 	defer cl.Close()
+	if !waitUntil(func() bool { return media.Get(pubPath) == nil }, 5*time.Second) {
+		return "error:path-still-registered-by-an-earlier-probe"
+	}
 	code, err := cl.Publish(w.srv.URL(pubPath), kit.SDPH264AAC)
 	out := classifyRTSP(code, err)
 	if media.Get(pubPath) != nil && w.pubs[pubPath] == nil {
